@@ -131,6 +131,56 @@ theorem timeout_never_after_terminal {α} (mode : Due) (cold1 : Bool) (other : N
   · intro S hS; exact toSwitch_prefix_nexts mode cold1 msgs due fireAt true S hS
   · intro hN; exact toNoSwitch_terminal mode cold1 msgs due fireAt true hN
 
+/-- **timeout_switch_at_first_large_gap** (relative due time `d`, source wins ties).  If the source first delivers the
+elements `pre`, each at most `d` after the previous one (the first at most `d` after the subscription), and then nothing
+arrives within `d` of the last of them (the next notification, if any, is later than `last + d`), the fallback is
+subscribed exactly at `last + d` — "when the time since subscription or the last element reaches the due time". -/
+theorem timeout_switch_at_first_large_gap {α} (d sub : Nat) (other : Nat → TL α) (pre rest : TL α)
+    (hn : ∀ m ∈ pre, isNext m.2 = true) (hg : GapsOk d sub pre)
+    (hr : rest = [] ∨ ∃ t n r, rest = (t, n) :: r ∧ lastTime sub pre + d < t) :
+    toRun (.rel d) false other (toInit (.rel d) sub) (pre ++ rest) = pre ++ other (lastTime sub pre + d) := by
+  have hsw := to_switch_at_gap d pre rest sub true hn hg hr
+  have hdec := (timeout_never_after_terminal (.rel d) false other sub (pre ++ rest)).1
+  have hmax : max (sub + d) sub = sub + d := Nat.max_eq_left (Nat.le_add_right sub d)
+  simp only [Due.at, hmax] at hdec
+  rw [hdec, hsw]
+  congr 1
+  -- the relayed prefix is `pre`
+  clear hdec hsw
+  generalize true = first
+  induction pre generalizing sub first with
+  | nil =>
+    rcases hr with rfl | ⟨t, n, r, rfl, hlt⟩
+    · simp [toPrefix]
+    · simp only [lastTime] at hlt; simp [toPrefix, timerBefore, hlt]
+  | cons a pre ih =>
+    obtain ⟨t, n⟩ := a
+    have hnext := hn (t, n) (List.mem_cons_self ..)
+    cases n with
+    | next v =>
+      have hle : ¬ (sub + d < t) := by have := hg.1; omega
+      have := ih t (fun m hm => hn m (List.mem_cons_of_mem _ hm)) hg.2 (by simpa [lastTime] using hr)
+        (Nat.max_eq_left (Nat.le_add_right t d)) false
+      simp only [List.cons_append, toPrefix, Bool.and_false, timerBefore, Bool.false_eq_true, if_false, hle,
+        decide_false, Due.at, this]
+    | error e => simp [isNext] at hnext
+    | completed => simp [isNext] at hnext
+
+/-- **timeout_no_switch_small_gaps.**  If every notification up to and including the source's terminal arrives at most
+`d` after the previous one, the timeout never fires: the subscriber gets the source, nothing else. -/
+theorem timeout_no_switch_small_gaps {α} (d sub : Nat) (other : Nat → TL α) (pre post : TL α) (T : Nat) (n : Notif α)
+    (hn : ∀ m ∈ pre, isNext m.2 = true) (hterm : isNext n = false) (hg : GapsOk d sub (pre ++ [(T, n)])) :
+    toRun (.rel d) false other (toInit (.rel d) sub) (pre ++ (T, n) :: post) = conform (pre ++ (T, n) :: post) := by
+  have hsw := to_no_switch_small_gaps d pre post T n sub true hn hterm hg
+  have hall := timeout_never_after_terminal (.rel d) false other sub (pre ++ (T, n) :: post)
+  have hmax : max (sub + d) sub = sub + d := Nat.max_eq_left (Nat.le_add_right sub d)
+  simp only [Due.at, hmax] at hall
+  rw [hall.1, hsw, (hall.2.2 hsw).1]
+  simp
+
+example : GapsOk 10 200 [(210, Notif.next 1), (220, .next 2)] ∧ lastTime 200 [(210, Notif.next 1), (220, .next 2)] = 220 := by
+  simp [GapsOk, lastTime]
+
 /-- **timeout_timer_current.**  In every state reached before the switch the pending timer belongs to the current
 `_id` (SerialDisposable: arming a timer disposes the previous one), so the `_id[0] == my_id` test of the action
 always succeeds when a timer gets to run. -/
